@@ -16,6 +16,7 @@ RULES = {
     "C08.R5": "walk: quantize iterates named_modules(), applies the filter, forwards **kwargs, and replaces through set_module_by_name only when a twin was built",
     "C08.R7": "weight source: qforward reads the weight only through self.qweight, a plain property that stores nothing and returns quantize_weight(self.weight, <module configuration>) on every unfrozen access (the twin is evaluated with the quantization of its current weight)",
     "C08.R8": "the float op the twin calls on (input, qweight, bias) is itself right: the quantized linear function returns (*batch, out) with every raw payload matched by its scale once and the bias added after scaling (the typing rules C07.R1/R2/R6, the accumulation table C07.R3, the primitive preconditions C07.R5 and the scale-product rule C07.R10, re-checked here)",
+    "C08.R10": "the root of the tree is handled: named_modules() yields the model itself under the empty name, which cannot be replaced in its parent - quantize() must skip or reject it before it replaces anything or clears parameters",
     "C08.R9": "dtype and device are kept: the activation-scale buffers of a twin are created with the dtype and device the constructor receives from the source module (a factory call without dtype gives float32 scales, hence float32 outputs from a half-precision model)",
     "C08.R6": "forward pipeline: input/output (re)quantized with input_scale/output_scale and activation_qtype under `activation_qtype is not None`; qforward computes the float op on (input, qweight, bias)",
 }
@@ -119,6 +120,7 @@ def run(chk):
     walk_rule(chk)
     forward_rule(chk, qm)
     scale_buffers(chk, mixin)
+    root_module(chk)
     from .c09 import qweight_source
     qweight_source(chk, r2="C08.R7", r3="C08.R7")
     from ..report import AliasedCheck
@@ -597,3 +599,19 @@ def scale_buffers(chk, mixin):
                 chk.require("C08.R9", f"{mixin.mod.rel}:{ef[2]}", follows or like, f"QModuleMixin.__init__: buffer {ef[1].args[0].value} = `{U(v)[:70]}` takes the constructor's dtype", "QModuleMixin.__init__", "scale buffers in the default dtype",
                             "a float16 / bfloat16 model quantized with activations: float32 scales, so every quantized activation and the model's outputs are float32 until a calibration replaces the buffers")
     chk.floor("C08.R9", n, 2, "activation scale buffers registered in the constructor")
+
+
+def root_module(chk):
+    repo = chk.repo
+    mi, q = repo.func("quantize")
+    model = positional_params(q)[0]
+    handled = False
+    for nd in ast.walk(q):
+        if isinstance(nd, ast.Compare):
+            t = U(nd)
+            if t in ("name == ''", "name != ''", f"m is {model}", f"m is not {model}", "not name", "len(name) == 0") or ("name" in t and "''" in t):
+                handled = True
+        if isinstance(nd, ast.If) and U(nd.test) in ("not name", "name"):
+            handled = True
+    chk.require("C08.R10", f"{mi.rel}:{q.lineno}", handled, "quantize() tests for the root module (empty name) before replacing it", "quantize", "root module replaced under the empty name",
+                "model = nn.Linear(8, 4); quantize(model, weights=qint8): type(model) stays Linear, a child named '' is attached, model.weight and model.bias are None and the forward raises")
